@@ -573,8 +573,7 @@ func (fn LastValue) CheckArgsLen(expr parser.AnalyticFunction) error {
 }
 
 func (fn LastValue) Execute(ctx context.Context, scope *ReferenceScope, partition Partition, expr parser.AnalyticFunction) (map[int]value.Primary, error) {
-	partition.Reverse()
-	return setNthValue(ctx, scope, partition, expr, 1)
+	return setNthValueInFrame(ctx, scope, partition, expr, 1, true)
 }
 
 type NthValue struct{}
@@ -603,6 +602,12 @@ func (fn NthValue) Execute(ctx context.Context, scope *ReferenceScope, partition
 }
 
 func setNthValue(ctx context.Context, scope *ReferenceScope, partition Partition, expr parser.AnalyticFunction, n int) (map[int]value.Primary, error) {
+	return setNthValueInFrame(ctx, scope, partition, expr, n, false)
+}
+
+// setNthValueInFrame sets the n-th value of each row's window frame, counted from the start of the
+// frame or, if fromEnd is true, from its end.
+func setNthValueInFrame(ctx context.Context, scope *ReferenceScope, partition Partition, expr parser.AnalyticFunction, n int, fromEnd bool) (map[int]value.Primary, error) {
 	frameSet := WindowFrameSet(partition, expr.AnalyticClause)
 	list := make(map[int]value.Primary, len(partition))
 
@@ -613,7 +618,11 @@ func setNthValue(ctx context.Context, scope *ReferenceScope, partition Partition
 		var val value.Primary = value.NewNull()
 		count := 0
 
-		for i := frame.Low; i <= frame.High; i++ {
+		for k := 0; k <= frame.High-frame.Low; k++ {
+			i := frame.Low + k
+			if fromEnd {
+				i = frame.High - k
+			}
 			if i < 0 || len(partition) <= i {
 				continue
 			}
